@@ -42,7 +42,7 @@ func packetGenesisBinding(c *Check, rule string, which ...string) {
 		if !sel(f.field) {
 			continue
 		}
-		el := "$2." + f.field + "[(μ{-1} + 1)]"
+		el := "$2." + f.field + "[μ{0}]"
 		args := map[int]string{0: "$1", 1: "$0", 2: el + ".SrcChain", 3: el + ".DstChain", 4: el + ".Sequence"}
 		if f.data {
 			args[5] = el + ".Data"
@@ -282,10 +282,10 @@ func allLogsProcessed(c *Check, rule, fnSpec string) {
 		conds := fa.PathCondStrings(r.Block())
 		exhausted, inLoop := false, false
 		for s := range conds {
-			if strings.HasPrefix(s, "(len(") && strings.Contains(s, ".Logs) <= (μ{-1} + 1))") {
+			if strings.HasPrefix(s, "(len(") && strings.Contains(s, ".Logs) <= μ{0})") {
 				exhausted = true
 			}
-			if strings.HasPrefix(s, "((μ{-1} + 1) < len(") && strings.HasSuffix(s, ".Logs))") {
+			if strings.HasPrefix(s, "(μ{0} < len(") && strings.HasSuffix(s, ".Logs))") {
 				inLoop = true
 			}
 		}
@@ -397,7 +397,7 @@ func exportLoopsComplete(c *Check, rule string, fns []*ssa.Function) int {
 		for i, r := range fa.NonRejectReturns() {
 			inLoop := ""
 			for s := range fa.PathCondStrings(r.Block()) {
-				if strings.HasPrefix(s, "((μ{-1} + 1) < len(") || strings.HasPrefix(s, "iface:cosmos-sdk/types.Iterator.Valid(") {
+				if strings.HasPrefix(s, "(μ{0} < len(") || strings.HasPrefix(s, "iface:cosmos-sdk/types.Iterator.Valid(") {
 					inLoop = s
 				}
 			}
